@@ -2,6 +2,7 @@ package engine
 
 import (
 	"fmt"
+	"regexp"
 	"strconv"
 	"strings"
 	"unicode"
@@ -430,6 +431,7 @@ type FuncContract struct {
 	Recovers string
 	Panics   []string // allowed explicit panic types
 	Measure  *Clause  // recursion measure
+	HitSites map[string]bool // call sites counted by hits("name#k")
 	AtCalls  []*Clause // assertions after the k-th call of a callee: Tag2 = "callee#k"
 	Assumes  []*Clause // loop-head assumptions (listed in evidence, not proved)
 	Extra    map[string][]string
@@ -454,6 +456,8 @@ type ContractSet struct {
 	Funcs  map[string]*FuncContract // key pkgpath + "." + name
 	Files  []string
 }
+
+var hitsRe = regexp.MustCompile(`hits\("([^"]+)"\)`)
 
 var clauseKeywords = map[string]bool{
 	"spec": true, "rec": true, "axiom": true, "lemma": true, "func": true, "props": true,
@@ -705,6 +709,12 @@ func (cs *ContractSet) ParseContractText(pkgPath, file, text string) error {
 			case "use", "opt":
 				cur.Extra[rc.kw] = append(cur.Extra[rc.kw], rc.rest)
 			case "requires", "ensures", "measure":
+				for _, m := range hitsRe.FindAllStringSubmatch(rc.rest, -1) {
+					if cur.HitSites == nil {
+						cur.HitSites = map[string]bool{}
+					}
+					cur.HitSites[m[1]] = true
+				}
 				tag, props, body := parseTags(rc.rest)
 				e, err := ParseSpecExpr(body)
 				if err != nil {
@@ -743,6 +753,12 @@ func (cs *ContractSet) ParseContractText(pkgPath, file, text string) error {
 				cur.AtCalls = append(cur.AtCalls, &Clause{Kind: kind, Tag: tag, Props: props, Src: body, Expr: e, Site: site, File: file, Line: rc.line})
 			case "loop":
 				// loop N invariant|decreases [tags] expr
+				for _, m := range hitsRe.FindAllStringSubmatch(rc.rest, -1) {
+					if cur.HitSites == nil {
+						cur.HitSites = map[string]bool{}
+					}
+					cur.HitSites[m[1]] = true
+				}
 				fs := strings.Fields(rc.rest)
 				if len(fs) < 3 {
 					return errf(fmt.Errorf("bad loop clause"))
